@@ -4,11 +4,18 @@ Workload: up to 5 tasks (service calls, task.create children, event triggers wit
 over <= 3 names and 2 global contexts, each running a generated sequence of
 unique(name, kill_me) / sleep / name2id / cancel-by-name / add_done_callback / raise / finish, started
 at generated instants incl. the same instant; plus a file whose preamble calls task.unique and is
-(re)loaded while tasks are running.
+(re)loaded while tasks are running.  Trigger functions may be hit by a BURST of 2-3 occurrences of their event in one
+instant (no loop pass between the fires: every dispatch happens before the first new task has had a step), and a
+program may move to the other global context with pyscript.set_global_ctx() in mid-run: every later
+unique / name2id / cancel-by-name of that task then belongs to the context it is in NOW.
 
 Oracle: a reference map name -> owner per context, stepped through the markers the scripts emit
 (they are totally ordered; a marker and the call that follows it are atomic on the loop), with the
-liveness of every task observed at each marker and at every quiescent point of the simulator.
+liveness of every task observed at each marker and at every quiescent point of the simulator.  The map is keyed
+by the caller's CURRENT global context.  A body of a @task_unique(kill_me=True) function that starts while another
+live task (that nobody asked to die) owns the name is a violation whatever the number of occurrences, and a task
+that ends cancelled although no claim / task.cancel / kill_me rule of its context asked for it is one too (names
+of different contexts never interact, a rightful owner is never the one that is killed).
 """
 
 from __future__ import annotations
@@ -23,7 +30,9 @@ PROPERTY = "C13"
 LEVEL = "exploration"
 RULE = (
     "seeded generation of <=5 task programs over <=3 names x 2 contexts with start instants on a 0.25 s grid "
-    "(same-instant starts included); thorough tier additionally ENUMERATES all 3-task configurations from a "
+    "(same-instant starts included; trigger functions also get bursts of 2-3 occurrences fired back to back in one "
+    "instant; ~1/4 of the programs switch to the other global context with pyscript.set_global_ctx before a claim); "
+    "thorough tier additionally ENUMERATES all 3-task configurations from a "
     "family of 6 programs x 3 start offsets x 2 subsystems (11664 cases); distinct = scenario digest; "
     "non-trivial = some name was contested (a claim found a live owner)"
 )
@@ -32,6 +41,11 @@ ASSUMPTIONS = [
     "a kill_me caller whose rival has already been asked to die but is not dead yet is don't-care",
     "victims are required to be done at the next quiescent point of the loop (no ready callbacks, next timer in "
     "the future) unless an earlier victim's done-callback is still running - that case is reported as its own class",
+    "after pyscript.set_global_ctx(X) returned, the task's current global context is X for every later task.* call "
+    "of that function run (docs: 'sets the current global context to the given name'); both context files always exist "
+    "when a program switches, a switch that raises (context being reloaded) just ends the task",
+    "nothing in the workload except task.unique / task.cancel / kill_me cancels a program task, so a program task that "
+    "ends cancelled without having been asked to die (or being don't-care) is a violation",
 ]
 TIERS = {
     "quick": {"runs": 900, "chunk": 30},
@@ -40,7 +54,9 @@ TIERS = {
 N_ENUM = 11664
 REACH_PROBES = ["contested", "same_instant_claims", "kill_me_vs_live_owner", "kill_me_free_name", "owner_ended_name_released",
                 "cancel_by_name", "callback_sleeping_during_kill", "two_contexts_same_name", "decorator_form",
-                "preamble_unique", "multi_name_owner"]
+                "preamble_unique", "multi_name_owner", "trigger_burst", "kill_me_trigger_burst",
+                "decorator_kill_me_vs_live_owner",
+                "ctx_switch", "claim_after_ctx_switch", "contested_after_ctx_switch", "same_name_owned_in_both_contexts"]
 SHRINK_LISTS = [["ops"], ["spec", "progs"], ["spec", "progs", "*", "steps"]]
 
 NAMES = ["n0", "n1", "n2"]
@@ -81,21 +97,51 @@ def _gen_steps(rng: random.Random, depth: int = 0) -> list:
     return steps
 
 
+def _add_ctx_switch(rng: random.Random, prog: dict) -> None:
+    """The program moves to the other global context (pyscript.set_global_ctx) before one of its claims."""
+    other = [c for c in CTXS if c != prog["ctx"]][0]
+    steps = prog["steps"]
+    claims = [i for i, s in enumerate(steps) if s[0] == "unique"]
+    if not claims or rng.random() < 0.2:
+        pos = rng.randint(0, len(steps))
+        if steps and steps[-1][0] == "raise":
+            pos = min(pos, len(steps) - 1)
+        steps.insert(pos, ["setctx", other])
+        steps.insert(pos + 1, ["unique", rng.choice(NAMES), rng.random() < 0.3])
+        pos += 1
+    else:
+        pos = rng.choice(claims)
+        steps.insert(pos, ["setctx", other])
+        pos += 1
+    if rng.random() < 0.5:
+        steps.insert(pos + 1, ["n2i"])
+    if rng.random() < 0.3:  # ... and back again later on
+        end = len(steps) - 1 if steps[-1][0] == "raise" else len(steps)
+        back = rng.randint(pos + 1, end)
+        steps.insert(back, ["setctx", prog["ctx"]])
+
+
 def gen(rng: random.Random, tier: str) -> dict:
     cfg = gen_cfg(rng)
     cfg["drift"] = 0.0
     progs = []
     for tid in range(rng.randint(2, 5)):
-        entry = rng.choice(["service", "service", "service", "trigger", "create"])
+        entry = rng.choice(["service", "service", "service", "trigger", "trigger", "create"])
         prog = {"tid": tid, "ctx": rng.choice(CTXS), "entry": entry, "steps": _gen_steps(rng)}
         if entry == "trigger":
-            prog["dec"] = [rng.choice(NAMES), rng.random() < 0.4]
+            prog["dec"] = [rng.choice(NAMES), rng.random() < 0.5]
+        if rng.random() < 0.25:
+            _add_ctx_switch(rng, prog)
         progs.append(prog)
     ops = []
     k = 0
     for prog in progs:
         k += rng.choice([0, 0, 1, 1, 2, 4])
         ops.append({"k": k, "kind": "start", "tid": prog["tid"]})
+        if prog["entry"] == "trigger" and rng.random() < 0.4:
+            # a burst: further occurrences of the trigger in the same instant, fired back to back
+            for _ in range(rng.choice([1, 1, 2])):
+                ops.append({"k": k, "kind": "start", "tid": prog["tid"]})
         if rng.random() < 0.3:  # a program may be started twice (two tasks of one function)
             ops.append({"k": k + rng.choice([0, 1, 3]), "kind": "start", "tid": prog["tid"]})
     if rng.random() < 0.2:
@@ -156,6 +202,8 @@ def _prog_src(prog: dict) -> list[str]:
             lines.append(f"    task.cancel(task.name2id({step[1]!r}))")
         elif step[0] == "add_cb":
             lines.append(f"    task.add_done_callback(task.current_task(), cb, {tid}, {step[1]})")
+        elif step[0] == "setctx":
+            lines.append(f"    pyscript.set_global_ctx('file.{step[1]}')")
         elif step[0] == "raise":
             lines.append("    raise ValueError('boom')")
         lines.append(f"    sim.mark('p', {tid}, 'post', {idx})")
@@ -166,9 +214,10 @@ def _prog_src(prog: dict) -> list[str]:
 
 def render(scn: dict) -> dict:
     files = {}
+    switched_to = {s[1] for p in scn["spec"]["progs"] for s in p["steps"] if s[0] == "setctx"}
     for ctx in CTXS:
         progs = [p for p in scn["spec"]["progs"] if p["ctx"] == ctx]
-        if not progs:
+        if not progs and ctx not in switched_to:
             continue
         lines = [
             "def cb(tid, d):",
@@ -213,6 +262,21 @@ def simplify(scn: dict):
             cand = copy.deepcopy(scn)
             cand["spec"]["progs"][pi]["ctx"] = "ca"
             yield cand
+        if any(s[0] == "setctx" for s in prog["steps"]):
+            cand = copy.deepcopy(scn)
+            cand["spec"]["progs"][pi]["steps"] = [s for s in prog["steps"] if s[0] != "setctx"]
+            yield cand
+    # a burst of one trigger -> a single occurrence
+    seen = set()
+    for oi, op in enumerate(scn["ops"]):
+        if op["kind"] != "start":
+            continue
+        if (op["k"], op["tid"]) in seen:
+            cand = copy.deepcopy(scn)
+            del cand["ops"][oi]
+            yield cand
+            break
+        seen.add((op["k"], op["tid"]))
     for key, val in (("timer_late_ms", 0.0), ("cost_us", 50), ("exec_latency_ms", [0.0, 0.0]), ("set_order_salt", 0)):
         if scn["cfg"].get(key) != val:
             cand = copy.deepcopy(scn)
@@ -246,6 +310,9 @@ class Checker:
         self.preamble = None
         self.protected: dict = {}
         self.doomed_ever: set = set()
+        self.maybe_die: set = set()     # labels whose cancellation is don't-care
+        self.dec_reported: set = set()  # tids whose decorator-form kill_me violation was seen at the body start
+        self.reload_vts: list = []
 
     # -- helpers
     def alive(self, label) -> bool:
@@ -275,12 +342,20 @@ class Checker:
         other_ctx = [k for k in self.owner if k[1] == name and k[0] != ctx]
         if other_ctx:
             self.w.probe("two_contexts_same_name")
+            if any(self.alive(self.owner[k]) and self.owner[k] != label for k in other_ctx):
+                self.w.probe("same_name_owned_in_both_contexts")
+        switched = bool(self.inst.get(label, {}).get("switched"))
+        if switched:
+            self.w.probe("claim_after_ctx_switch")
         if prev is not None and prev != label:
             self.contested = True
             self.w.probe("contested")
+            if switched:
+                self.w.probe("contested_after_ctx_switch")
             if kill_me:
                 self.w.probe("kill_me_vs_live_owner")
-                if prev in self.must_die:
+                if prev in self.must_die or prev in self.maybe_die:
+                    self.maybe_die.add(label)
                     return None  # rival already asked to die: don't-care
                 return False
             self.must_die.setdefault(prev, {"why": f"{name} claimed by task {label} ({where})", "vt": self.w.loop.vt,
@@ -295,6 +370,34 @@ class Checker:
         if sum(1 for k, v in self.owner.items() if v == label) > 1:
             self.w.probe("multi_name_owner")
         return True
+
+    def claim_decorator(self, ctx, name, label, kill_me, tid) -> None:
+        """The body of a @task_unique function starts: the rule was applied just before, in the same task step."""
+        if kill_me:
+            self.release_dead()
+            prev = self.live_owner(ctx, name)
+            if prev is not None and prev != label:
+                self.contested = True
+                self.w.probe("contested")
+                if prev not in self.must_die and prev not in self.maybe_die:
+                    prec = self.inst.get(prev) or {}
+                    self.dec_reported.add(tid)
+                    self.viol("C13.kill_me_survived", {"form": "decorator"},
+                              f"p{tid} task {label}: the body of @task_unique({name!r}, kill_me=True) started although "
+                              f"live task {prev} (p{prec.get('tid')}) owns the name in {ctx}")
+                # whatever happens to the rightful owner now is no longer judged; the newcomer ran, so it claimed
+                self.maybe_die.add(prev)
+                self.owner[(ctx, name)] = label
+                self.claim_log.append((self.w.loop.vt, ctx, name, label))
+                self.claimants.setdefault((ctx, name), [])
+                if label not in self.claimants[(ctx, name)]:
+                    self.claimants[(ctx, name)].append(label)
+                return
+        self.claim(ctx, name, label, False, "@task_unique")
+
+    def cur_ctx(self, label, prog) -> str:
+        rec = self.inst.get(label)
+        return rec["cur"] if rec is not None else prog["ctx"]
 
     # -- marker processing
     def on_mark(self, rec: dict) -> None:
@@ -328,12 +431,12 @@ class Checker:
         if prog is None:
             return
         if what == "start":
-            self.inst[label] = {"tid": tid, "task": rec["task_obj"], "ctx": prog["ctx"], "start_vt": rec["vt"]}
+            self.inst[label] = {"tid": tid, "task": rec["task_obj"], "ctx": prog["ctx"], "cur": prog["ctx"],
+                                "start_vt": rec["vt"], "switched": False}
             if prog["entry"] == "trigger":
                 self.w.probe("decorator_form")
                 name, kill_me = prog["dec"]
-                res = self.claim(prog["ctx"], name, label, False, "@task_unique")
-                _ = res
+                self.claim_decorator(prog["ctx"], name, label, kill_me, tid)
             return
         if label not in self.inst:
             return
@@ -341,15 +444,16 @@ class Checker:
             idx = args[3]
             step = prog["steps"][idx]
             # a marker of another task between my pre and post means the step yielded: fine for sleep only
+            ctx = self.cur_ctx(label, prog)
             if step[0] == "unique":
-                res = self.claim(prog["ctx"], step[1], label, step[2], f"step {idx} of p{tid}")
+                res = self.claim(ctx, step[1], label, step[2], f"step {idx} of p{tid} in {ctx}")
                 self.pending_post[label] = {"idx": idx, "expect": res, "step": step, "vt": rec["vt"]}
                 if res is False:
                     self.must_die.setdefault(label, {"why": f"kill_me=True while {step[1]} is owned by a live task",
                                                      "vt": rec["vt"], "cb_block": set(self.cb_running)})
             elif step[0] == "cancel":
                 self.release_dead()
-                victim = self.live_owner(prog["ctx"], step[1])
+                victim = self.live_owner(ctx, step[1])
                 self.w.probe("cancel_by_name")
                 if victim is None:
                     self.pending_post[label] = {"idx": idx, "expect": "nameerror", "step": step, "vt": rec["vt"]}
@@ -363,9 +467,14 @@ class Checker:
         elif what == "post":
             idx = args[3]
             pend = self.pending_post.pop(label, None)
+            if prog["steps"][idx][0] == "setctx":
+                # the switch returned: from here on the task lives in the other context
+                self.inst[label]["cur"] = prog["steps"][idx][1]
+                self.inst[label]["switched"] = True
+                self.w.probe("ctx_switch")
             if pend and pend["idx"] == idx:
                 if pend["expect"] is False and pend["step"][0] == "unique":
-                    owner = self.live_owner(prog["ctx"], pend["step"][1])
+                    owner = self.live_owner(self.cur_ctx(label, prog), pend["step"][1])
                     self.viol("C13.kill_me_survived", {"form": "call"},
                               f"p{tid} task {label}: task.unique({pend['step'][1]!r}, kill_me=True) returned although "
                               f"live task {owner} owns the name")
@@ -376,11 +485,12 @@ class Checker:
             self.release_dead()
             got = rec["raw_kw"].get("m") or {}
             got_lab = {n: self.w.label_of(t) for n, t in got.items()}
-            exp = {n: lab for (c, n), lab in self.owner.items() if c == prog["ctx"] and self.alive(lab)}
+            ctx = self.cur_ctx(label, prog)
+            exp = {n: lab for (c, n), lab in self.owner.items() if c == ctx and self.alive(lab)}
             if got_lab != exp:
                 stale = {n: l for n, l in got_lab.items() if l in self.inst and not self.alive(l)}
                 self.viol("C13.name2id", {"pattern": "dead_owner_listed" if stale else "other"},
-                          f"p{tid} task {label} in {prog['ctx']}: task.name2id() = {got_lab}, reference owners = {exp}")
+                          f"p{tid} task {label} in {ctx}: task.name2id() = {got_lab}, reference owners = {exp}")
 
     # -- invariants at quiescent points
     def on_quiescent(self, _loop) -> None:
@@ -435,6 +545,7 @@ def run(scn: dict) -> dict:
         w.loop.on_quiescent = chk.on_quiescent
         last_k = 0
         same_inst: dict = {}
+        last_fire = None
         for op in scn["ops"]:
             target = base + 0.5 + op["k"] * GRID
             last_k = max(last_k, op["k"])
@@ -462,9 +573,18 @@ def run(scn: dict) -> dict:
                     chk.release_dead()
                     name, kill_me = prog["dec"]
                     owner = chk.live_owner(prog["ctx"], name)
-                    fired.append({"tid": prog["tid"], "vt": w.loop.vt, "owner_at_fire": owner,
-                                  "owner_doomed": owner in chk.must_die if owner is not None else False,
+                    here = (prog["tid"], w.loop.iterations)
+                    fired.append({"tid": prog["tid"], "vt": w.loop.vt, "owner_at_fire": owner, "iter": w.loop.iterations,
+                                  "owner_doomed": (owner in chk.must_die or owner in chk.maybe_die)
+                                  if owner is not None else False,
                                   "n_before": sum(1 for r in chk.inst.values() if r["tid"] == prog["tid"])})
+                    if kill_me and owner is not None:
+                        w.probe("decorator_kill_me_vs_live_owner")
+                    if last_fire == here:
+                        w.probe("trigger_burst")  # no loop pass since the previous occurrence of this trigger
+                        if kill_me:
+                            w.probe("kill_me_trigger_burst")
+                    last_fire = here
                     w.fire(f"go_{prog['tid']}", {})
             elif op["kind"] == "stall":
                 w.loop.stall(op["s"])
@@ -501,6 +621,20 @@ def run(scn: dict) -> dict:
                 chk.viol("C13.killed_without_live_owner", {"kill_me": pend["step"][2]},
                          f"p{rec['tid']} task {label}: task.unique({pend['step'][1]!r}, kill_me={pend['step'][2]}) never "
                          f"returned although no other live task owned the name")
+        # ---- a program task nobody asked to die must not end cancelled (a claim in one global context never
+        # touches the owner of that name in another one; a kill_me caller never costs the rightful owner its life)
+        for label in sorted(chk.inst):
+            rec = chk.inst[label]
+            if (rec["task"].done() and rec["task"].cancelled() and label not in chk.doomed_ever
+                    and label not in chk.maybe_die and label not in chk.protected):
+                held = sorted(f"{c}:{n}" for (c, n), labs in chk.claimants.items() if label in labs)
+                cross = any(c2 != c and n2 == n and vt >= rec["start_vt"]
+                            for (c, n), labs in chk.claimants.items() if label in labs
+                            for (vt, c2, n2, lab2) in chk.claim_log if lab2 != label)
+                chk.viol("C13.cancelled_unasked", {"pattern": "cross_context" if cross else "other"},
+                         f"task {label} (p{rec['tid']}, context {rec['ctx']}, names claimed {held}) was cancelled although "
+                         f"no task.unique / task.cancel in its context asked for it"
+                         + (" - the same bare name was claimed in the other global context while it ran" if cross else ""))
         # ---- tasks not started by pyscript must never be cancelled
         for rec in outside:
             task = rec["task"]
@@ -520,9 +654,15 @@ def run(scn: dict) -> dict:
             name, kill_me = prog["dec"]
             started = [r for r in chk.inst.values() if r["tid"] == rec["tid"] and r["start_vt"] >= rec["vt"] - 1e-9]
             n_started = len(started)
-            n_fired_same = sum(1 for f in fired if f["tid"] == rec["tid"])
-            if n_fired_same > 1:
-                continue  # several occurrences of one trigger: attribution by count is ambiguous, skip
+            same = [f for f in fired if f["tid"] == rec["tid"]]
+            if len(same) > 1:
+                # several occurrences of one trigger: attribution by count is ambiguous unless they form ONE burst
+                # (same loop pass); a burst is judged once, as a whole: at least one occurrence must run when the
+                # name is free (that more than one kill_me body runs is judged at the body's start marker)
+                if any(f["iter"] != rec["iter"] for f in same) or same[0] is not rec:
+                    continue
+            if rec["tid"] in chk.dec_reported:
+                continue
             if kill_me and rec["owner_at_fire"] is not None and not rec["owner_doomed"]:
                 owner_rec = chk.inst.get(rec["owner_at_fire"])
                 # the owner must still have been alive when the run would have started (a few passes later)
